@@ -423,6 +423,79 @@ func c04IDs(p *core.Prog, r *core.Report, locks *core.Locks) {
 		})
 		r.Check(ok, "C04-R4", fname(f), "received frame id compared with the exchange id", p.Pos(f.Pos()), "checkFrame compares Header.ID with msgID", "received frames are not checked against the exchange's id")
 	}
+	recvPriority(p, r, "C04-R4")
+}
+
+// recvPriority: shared by C04 (each caller receives its own complete response) and
+// C20 (a system error already sent by the handler reaches the caller).
+func recvPriority(p *core.Prog, r *core.Report, rule string) {
+	// frames already delivered to the exchange reach the caller before the
+	// connection error does: the error-notifier's error is returned only after
+	// a non-blocking receive on recvCh found nothing (select picks a ready case
+	// at random, so without this a complete queued response is lost to the error)
+	if f := mustFunc(p, r, "", "messageExchange", "recvPeerFrame"); f != nil {
+		recvCh := p.Field("", "messageExchange", "recvCh")
+		errF := p.Field("", "errNotifier", "err")
+		isDrain := func(i ssa.Instruction) bool {
+			sel, isSel := i.(*ssa.Select)
+			if !isSel || sel.Blocking {
+				return false
+			}
+			for _, st := range sel.States {
+				if st.Dir == types.RecvOnly && core.LoadedField(st.Chan) == recvCh {
+					return true
+				}
+			}
+			return false
+		}
+		var fromErr func(v ssa.Value, d int) bool
+		fromErr = func(v ssa.Value, d int) bool {
+			if d > 6 {
+				return false
+			}
+			if core.LoadedField(v) == errF {
+				return true
+			}
+			if ph, isPhi := v.(*ssa.Phi); isPhi {
+				for _, e := range ph.Edges {
+					if fromErr(e, d+1) {
+						return true
+					}
+				}
+			}
+			return false
+		}
+		n := 0
+		res := core.ReachAvoiding(f, nil, func(i ssa.Instruction) bool {
+			ret, isRet := i.(*ssa.Return)
+			if !isRet {
+				return false
+			}
+			for _, v := range ret.Results {
+				if fromErr(v, 0) {
+					n++
+					return true
+				}
+			}
+			return false
+		}, isDrain, nil)
+		has := false
+		core.EachInstr(f, func(i ssa.Instruction) {
+			if ret, isRet := i.(*ssa.Return); isRet {
+				for _, v := range ret.Results {
+					if fromErr(v, 0) {
+						has = true
+					}
+				}
+			}
+		})
+		if !has || recvCh == nil || errF == nil {
+			r.Errorf("recvPeerFrame: no return of the error notifier's error found (anchors moved)")
+		} else {
+			r.Check(!res.Found, rule, fname(f), "queued frames are received before the connection error is returned", p.Pos(f.Pos()),
+				"every path returning errCh.err passes a non-blocking receive on recvCh", "the connection error can be returned while a delivered frame is still queued: "+p.TrailString(res))
+		}
+	}
 }
 
 func sameKey(a, b ssa.Value) bool {
